@@ -314,7 +314,7 @@ void qsbr::unregister_thread(std::uint64_t quiescent_states_since_epoch_change,
     noexcept
 #endif
 {
-  bool epoch_change_prepared = false;
+  bool epoch_changed_by_this_call = false;
   UNODB_DETAIL_VERIF_SCHED(qsbr_load, &state);
   auto old_state = state.load(std::memory_order_acquire);
   UNODB_DETAIL_VERIF_OBS(qsbr_load, &state, old_state);
@@ -349,27 +349,58 @@ void qsbr::unregister_thread(std::uint64_t quiescent_states_since_epoch_change,
     const auto remove_thread_from_old_epoch =
         (thread_epoch != old_epoch) ||
         (quiescent_states_since_epoch_change == 0);
+    // The last thread of the epoch has to change it before leaving, unless it
+    // is the only registered thread and has already done so during this call.
     const auto advance_epoch =
-        remove_thread_from_old_epoch && (old_threads_in_previous_epoch == 1);
+        remove_thread_from_old_epoch && (old_threads_in_previous_epoch == 1) &&
+        !(old_single_thread_mode && epoch_changed_by_this_call);
+
+    if (UNODB_DETAIL_UNLIKELY(advance_epoch)) {
+      // Orphaned requests may only be aged (or, in the single thread mode,
+      // freed) by an epoch change that gets published, and only by the thread
+      // which owns that change. Nothing can be prepared ahead of a CAS on a
+      // state word that was read earlier: a thread may register, request
+      // deallocations and leave in the meantime. So leave the old epoch
+      // exactly the way quiescent() does - that changes the epoch if this
+      // still is the last thread by then - and then leave QSBR as a thread
+      // which has (or, if the epoch did change, has not yet) passed through a
+      // quiescent state in the current epoch.
+      const auto new_epoch = remove_thread_from_previous_epoch(old_epoch
+#ifndef NDEBUG
+                                                               ,
+                                                               thread_epoch
+#endif
+      );
+#ifdef UNODB_DETAIL_WITH_STATS
+      if (thread_epoch != old_epoch) {
+        register_quiescent_states_per_thread_between_epoch_changes(
+            quiescent_states_since_epoch_change);
+      }
+#endif  // UNODB_DETAIL_WITH_STATS
+      if (new_epoch != old_epoch) {
+        // Might be the first time the quitting thread saw the old epoch too, if
+        // a second-to-last thread quit before, advancing the epoch.
+        qsbr_thread.advance_last_seen_epoch(old_single_thread_mode, old_epoch);
+        qsbr_thread.execute_previous_requests(old_single_thread_mode,
+                                              new_epoch);
+        epoch_changed_by_this_call = true;
+        quiescent_states_since_epoch_change = 0;
+      } else {
+        quiescent_states_since_epoch_change = 1;
+      }
+      thread_epoch = new_epoch;
+      old_state = state.load(std::memory_order_acquire);
+      continue;
+    }
 
     const auto new_state =
         UNODB_DETAIL_UNLIKELY(remove_thread_from_old_epoch)
-            ? qsbr_state::
-                  dec_thread_count_threads_in_previous_epoch_maybe_advance(
-                      old_state, advance_epoch)
+            ? qsbr_state::dec_thread_count_and_threads_in_previous_epoch(
+                  old_state)
             : qsbr_state::dec_thread_count(old_state);
 
     if (UNODB_DETAIL_UNLIKELY(remove_thread_from_old_epoch)) {
       thread_epoch_change_barrier();
-
-      if (UNODB_DETAIL_UNLIKELY(advance_epoch) &&
-          UNODB_DETAIL_LIKELY(!epoch_change_prepared)) {
-        // Handle global orphans only once for one epoch change. We cannot do
-        // this after setting the new state as then other threads may proceed
-        // with subsequent epoch changes.
-        epoch_change_barrier_and_handle_orphans(old_single_thread_mode);
-        epoch_change_prepared = true;
-      }
     }
 
     UNODB_DETAIL_VERIF_SCHED(qsbr_cas, &state);
@@ -380,13 +411,6 @@ void qsbr::unregister_thread(std::uint64_t quiescent_states_since_epoch_change,
       // Might be the first time the quitting thread saw the old epoch too, if a
       // second-to-last thread quit before, advancing the epoch.
       qsbr_thread.advance_last_seen_epoch(old_single_thread_mode, old_epoch);
-      if (UNODB_DETAIL_UNLIKELY(advance_epoch)) {
-#ifdef UNODB_DETAIL_WITH_STATS
-        bump_epoch_change_count();
-#endif  // UNODB_DETAIL_WITH_STATS
-        qsbr_thread.execute_previous_requests(old_single_thread_mode,
-                                              old_epoch.advance());
-      }
       qsbr_thread.orphan_pending_requests();
 
 #ifdef UNODB_DETAIL_WITH_STATS
